@@ -50,12 +50,16 @@ struct readline
     int lastsize;
 
     char *history_space; // Указатель на буффер истории.
-    uint8_t history_size; // Количество строк в буффере истории.
+    // The three history indices are as wide as the history_size argument of
+    // vterm_automate_init (unsigned int): with uint8_t a depth of 256 became
+    // 0 (division by zero on the first stored line) and larger depths were
+    // silently truncated.
+    unsigned int history_size; // Количество строк в буффере истории.
 
-    uint8_t headhist; // Индекс в массиве, куда будет перезаписываться новая
-                      // строка истории.
-    uint8_t curhist; // Индекс выбора строки истории (0-пустая, 1-последняя,
-                     // 2-предпоследняя и т.д.)
+    unsigned int headhist; // Индекс в массиве, куда будет перезаписываться
+                           // новая строка истории.
+    unsigned int curhist; // Индекс выбора строки истории (0-пустая,
+                          // 1-последняя, 2-предпоследняя и т.д.)
 };
 
 __BEGIN_DECLS
